@@ -1,5 +1,374 @@
-from .core_props import run_prop
+"""C02 -- a grounded action call is reported applicable exactly when its instantiated precondition is true.
+
+Three streams of cases, all judged inside Coq (model = Model.Exec.is_applicable, spec oracle = Spec.Pddl.applicable on the
+independently read domain text):
+  corpus   the witnesses of the findings recorded for C02 (fixed ones must pass, open ones must reproduce);
+  worlds   generated typed domains with and/or/not/=/forall/comparison preconditions, random states, type-correct calls
+           (the shared pddlgen generator; same shape as the C01/C03 drivers);
+  scope    the exhaustive small scope the property asks for: every formula up to a size bound over the vocabulary
+           {p/1, q/1, r/2, z/0, f/1, h/0} x every call over a 2-3 element universe x every assignment to the ground atoms and
+           fluents the formula's vocabulary mentions (truth tables; the other atoms keep a random base value).
+"""
+import itertools
+import json
+import random
+
+from ..common import (Report, cbool, chex, clist, cstr, decide, load_findings, run_case_shards, run_impl,
+                      standard_proof_part)
+from .. import pddlgen as G
+from ..core_common import build_world, catom, run_worlds, world_literal
+
+HEADER = "From Coq Require Import PrimFloat NArith.\nFrom Verif Require Import Spec.Pddl Corr.Core Corr.C02.\n"
+PROP = "C02"
+
+# ------------------------------------------------------------------------------------------------ scope generation
+X, Y, K, V = "?x", "?y", "k", "?v"
 
 
+class Family:
+    def __init__(self, name, const, f="f", h="h", third=False):
+        self.name, self.const, self.f, self.h = name, const, f, h
+        self.objects = [("o1", "t"), ("o2", "u")] + ([("o3", "t")] if third else [])
+        self.consts = [(K, "u")] if const else []
+        self.universe = self.objects + self.consts
+        names = [n for n, _ in self.universe]
+        self.atoms = [["p", [a]] for a in names] + [["q", [a]] for a in names] + \
+                     [["r", [a, b]] for a in names for b in names] + [["z", []]]
+        self.fluents = [[f, [a]] for a in names] + [[h, []]]
+        self.calls = [list(c) for c in itertools.product(names, repeat=2)]
+
+    def header(self):
+        c = "(:constants %s - u) " % K if self.const else ""
+        return ("(define (domain dom) (:requirements :typing :negative-preconditions :equality :disjunctive-preconditions "
+                ":universal-preconditions :fluents) (:types t - object u - t) %s"
+                "(:predicates (p ?a - t) (q ?a - t) (r ?a - t ?b - t) (z)) (:functions (%s ?a - t) (%s))" % (c, self.f, self.h))
+
+    def leaves(self):
+        F, H = self.f, self.h
+        atoms = [["p", X], ["p", Y], ["q", X], ["q", Y], ["r", X, Y], ["r", Y, X], ["z"]]
+        if self.const:
+            atoms += [["p", K], ["r", X, K], ["r", K, Y]]
+        lits = atoms + [["not", a] for a in atoms]
+        eqs = [["=", X, Y], ["not", ["=", X, Y]]]
+        cmps = [[">=", [F, X], "1"], ["<", [F, Y], [H]], ["=", [F, X], [F, Y]], [">", ["+", [F, X], [H]], "1"],
+                ["<=", ["/", [F, Y], "2"], [H]], ["<", ["-", [F, X], [F, Y]], "0.5"], [">", ["*", [F, X], "2"], [H]],
+                ["<", ["/", "1", [F, X]], "2"]]         # the denominator can be zero: the library raises, the spec has no value
+        foralls = [["forall", [V, "-", "t"], ["and", ["p", V]]],
+                   ["forall", [V, "-", "u"], ["and", ["p", V]]],
+                   ["forall", [V, "-", "t"], ["or", ["not", ["q", V]], ["r", X, V]]],
+                   ["forall", [V, "-", "t"], ["and", [">=", [F, V], "1"]]],
+                   ["forall", [V, "-", "u"], ["or", ["r", V, Y], ["not", ["p", V]]]]]
+        return lits + eqs + cmps + foralls
+
+
+def names_in(t, acc):
+    if isinstance(t, str):
+        acc.add(t)
+    else:
+        for x in t:
+            names_in(x, acc)
+    return acc
+
+
+BUDGET = {  # (leaves, two-leaf formulas, size-3 formulas, calls per formula, state cap per call); None = all
+    ("thorough", "F2"): (None, None, 300, None, 128),
+    ("thorough", "F3const"): (None, 120, 60, 5, 64),
+    ("thorough", "F3obj"): (None, 100, 50, 5, 64),
+    ("thorough", "F2clash"): (None, 150, 60, None, 64),
+    ("quick", "F2"): (10, 30, 12, 2, 32),
+    ("quick", "F3const"): (8, 14, 6, 2, 32),
+    ("quick", "F2clash"): (8, 14, 6, 2, 32),
+}
+
+
+def subst_var(t):
+    """inside a forall body: talk about the quantified variable instead of ?y (keeps ?x free)"""
+    if isinstance(t, str):
+        return V if t == Y else t
+    return [subst_var(x) for x in t]
+
+
+def formulas(fam, rng, tier):
+    """[(size, tree)], complete?  -- all leaves and all two-leaf formulas when the budget says None, else a seeded sample"""
+    n1, n2, n3, _, _ = BUDGET[(tier, fam.name)]
+    L = fam.leaves()
+    one = [(1, ["and", l]) for l in L]
+    pairs = [(a, b) for i, a in enumerate(L) for b in L[i + 1:]]
+    two = [(2, ["and", a, b]) for a, b in pairs] + [(2, ["and", ["or", a, b]]) for a, b in pairs]
+    three = []
+    while len(three) < n3:
+        a, b, c = rng.sample(L, 3)
+        shape = rng.randrange(5)
+        if shape == 0:
+            three.append((3, ["and", a, ["or", b, c]]))
+        elif shape == 1:
+            three.append((3, ["and", ["or", a, ["and", b, c]]]))
+        elif shape == 2:
+            three.append((3, ["and", a, b, c]))
+        elif shape == 3:
+            three.append((3, ["and", ["or", a, b, c]]))
+        elif all(l[0] != "forall" for l in (a, b, c)):
+            three.append((3, ["and", ["forall", [V, "-", rng.choice(["t", "u"])],
+                                      ["and", subst_var(a), ["or", subst_var(b), subst_var(c)]]]]))
+    complete = n1 is None and n2 is None
+    if n1 is not None:
+        one = rng.sample(one, n1)
+    if n2 is not None:
+        two = rng.sample(two, n2)
+    return one + two + three, complete
+
+
+def scope_jobs(rng, tier):
+    fams = [Family("F2", False), Family("F3const", True), Family("F2clash", False, f="q", h="z"),
+            Family("F3obj", False, third=True)]
+    jobs = []
+    exhaustive = {}
+    grid = [0.0, 1.0]
+    per_job = 24
+    for fam in fams:
+        if (tier, fam.name) not in BUDGET:
+            continue
+        _, _, _, ncalls, cap = BUDGET[(tier, fam.name)]
+        fs, complete = formulas(fam, rng, tier)
+        exhaustive[fam.name] = complete and ncalls is None
+        for start in range(0, len(fs), per_job):
+            chunk = fs[start:start + per_job]
+            acts, rows, meta = [], [], []
+            for i, (size, tree) in enumerate(chunk):
+                an = "a%d" % i
+                acts.append("(:action %s :parameters (?x - t ?y - t) :precondition %s :effect (and (z)))" % (an, G.render(tree)))
+                mentioned = names_in(tree, set())
+                rel_a = [j for j, (p, _) in enumerate(fam.atoms) if p in mentioned]
+                rel_f = [j for j, (f, _) in enumerate(fam.fluents) if f in mentioned]
+                calls = fam.calls if ncalls is None else rng.sample(fam.calls, ncalls)
+                for args in calls:
+                    ra, rf = list(rel_a), list(rel_f)
+                    capped = False
+                    while (2 ** len(ra)) * (len(grid) ** len(rf)) > cap:
+                        capped = True
+                        if ra and (not rf or rng.random() < 0.7):
+                            ra.pop(rng.randrange(len(ra)))
+                        else:
+                            rf.pop(rng.randrange(len(rf)))
+                    base_f = 0
+                    for j in range(len(fam.atoms)):
+                        if j not in ra and rng.random() < 0.5:
+                            base_f |= 1 << j
+                    base_fl = 0
+                    for j in range(len(fam.fluents)):
+                        if j not in rf:
+                            base_fl += rng.randrange(len(grid)) * (len(grid) ** j)
+                    rows.append({"action": an, "args": args, "base_facts": base_f, "base_fl": base_fl,
+                                 "rel_atoms": ra, "rel_fl": rf})
+                    meta.append({"family": fam.name, "size": size, "formula": G.render(tree), "capped": capped})
+            text = fam.header() + "\n" + "\n".join(acts) + ")"
+            jobs.append({"op": "c02.scope", "domain_text": text, "objects": [list(o) for o in fam.objects],
+                         "atoms": fam.atoms, "fluents": fam.fluents, "grid": [g.hex() for g in grid], "rows": rows,
+                         "meta": meta, "family": fam.name})
+    return jobs, exhaustive
+
+
+def n_states(job, row):
+    return (2 ** len(row["rel_atoms"])) * (len(job["grid"]) ** len(row["rel_fl"]))
+
+
+def decode_state(job, row, n):
+    B = len(job["grid"])
+    mask = row["base_facts"]
+    for t, i in enumerate(row["rel_atoms"]):
+        if (n >> t) & 1:
+            mask |= 1 << i
+    code = n >> len(row["rel_atoms"])
+    fl = []
+    for j, (f, a) in enumerate(job["fluents"]):
+        if j in row["rel_fl"]:
+            d = (code // (B ** row["rel_fl"].index(j))) % B
+        else:
+            d = (row["base_fl"] // (B ** j)) % B
+        fl.append([f, a, float.fromhex(job["grid"][d])])
+    facts = [job["atoms"][i] for i in range(len(job["atoms"])) if (mask >> i) & 1]
+    return {"facts": facts, "fluents": fl}
+
+
+def scase_literal(job, res, eps_hex):
+    nums = clist(["(%s, %s)" % (cstr(k), chex(float.fromhex(v))) for k, v in sorted(res["nums"].items())])
+    objs = clist(["(%s, %s)" % (cstr(n), cstr(t)) for n, t in job["objects"]])
+    w = ("{| w_text := %s; w_nums := %s; w_eps := %s; w_objs := %s; w_oof := false; w_parsed := Raised; w_probes := [] |}"
+         % (cstr(job["domain_text"]), nums, chex(float.fromhex(eps_hex)), objs))
+    rows = []
+    for row, ans in zip(job["rows"], res["answers"]):
+        rows.append("{| r_action := %s; r_args := %s; r_base_facts := %d%%N; r_base_fl := %d%%N; r_rel_atoms := %s; "
+                    "r_rel_fl := %s; r_ans := %s |}" % (
+                        cstr(row["action"]), clist([cstr(a) for a in row["args"]]), row["base_facts"], row["base_fl"],
+                        clist(["%d%%nat" % i for i in row["rel_atoms"]]), clist(["%d%%nat" % i for i in row["rel_fl"]]),
+                        cstr(ans)))
+    return "(AS {| sc_world := %s; sc_atoms := %s; sc_fluents := %s; sc_grid := %s; sc_rows := %s |})" % (
+        w, clist([catom(p, a) for p, a in job["atoms"]]), clist([catom(f, a) for f, a in job["fluents"]]),
+        clist([chex(float.fromhex(g)) for g in job["grid"]]), clist(rows))
+
+
+def single_probe_world(job, row, meta, n):
+    """the same probe as a one-action world (the replay format of the world stream)"""
+    st = decode_state(job, row, n)
+    head = job["domain_text"].split("\n")[0]
+    act = [l for l in job["domain_text"].split("\n")[1:] if l.startswith("(:action %s " % row["action"])][0]
+    ptxt = ("(define (problem prob) (:domain dom) (:objects %s) (:init %s %s) (:goal (and)))" % (
+        " ".join("%s - %s" % (a, b) for a, b in job["objects"]),
+        " ".join("(= (%s) %r)" % (" ".join([f] + a), v) for f, a, v in st["fluents"]),
+        " ".join("(%s)" % " ".join([p] + a) for p, a in st["facts"])))
+    return {"domain_text": head + "\n" + act + ")",
+            "objects": job["objects"], "oof": False, "oof_kind": None, "features": ["scope:" + meta["family"]],
+            "probes": [{"action": row["action"], "args": row["args"], "state": st, "problem_text": ptxt, "perm_seed": 0,
+                        "nwhen": 0, "nuniv": 0}]}
+
+
+# ------------------------------------------------------------------------------------------------ world stream
+def corpus_worlds():
+    out = []
+    for f in load_findings(PROP):
+        w = f.get("witness")
+        if not w or "domain_text" not in w:
+            continue
+        out.append({"domain_text": w["domain_text"], "objects": w.get("objects", []), "oof": w.get("oof", False),
+                    "oof_kind": w.get("oof_kind"), "probes": w.get("probes", []), "features": ["corpus:" + f["id"]],
+                    "witness_of": f["id"] if f.get("status") == "open" else None, "tree": None})
+    return out
+
+
+def generated_worlds(rng, tier):
+    worlds = []
+    for _ in range({"quick": 60, "thorough": 600}[tier]):
+        w = G.gen_world(rng, max_actions=2)
+        worlds.append(build_world(rng, w, n_states=3, calls_per_action=5, perms=(0,)))
+    return worlds
+
+
+def connectives(text):
+    return sum(text.count(k) for k in ("(and", "(or", "(not", "(forall"))
+
+
+# ------------------------------------------------------------------------------------------------ the check
 def run(args):
-    return run_prop("C02", args)
+    rep = Report(PROP, args.tier, args.seed)
+    standard_proof_part(rep, PROP)
+    rng = random.Random(args.seed * 104729 + 2)
+    cfg = run_impl([{"op": "core.numeric_config"}], nproc=1)[0]
+    if args.replay:
+        data = json.load(open(args.replay))
+        worlds, jobs, exhaustive = [data["input"]["world"]], [], {}
+    else:
+        worlds = corpus_worlds() + generated_worlds(rng, args.tier)
+        jobs, exhaustive = scope_jobs(rng, args.tier)
+    hashseeds = [0] if args.tier == "quick" else [0, 1, 2]
+
+    lits, units, cases = [], [], []
+    stats = {"worlds": 0, "world_probes": 0, "world_app_true": 0, "world_app_false": 0, "world_app_raised": 0,
+             "features": {}, "scope_probes": 0, "scope_true": 0, "scope_false": 0, "scope_raised": 0,
+             "scope_formulas": {}, "scope_rows": 0, "scope_rows_capped": 0, "scope_by_size": {},
+             "formulas_with_both_truth_values": 0, "formulas_total": 0}
+    # ---- worlds (every hash seed: the library's sets are hash-ordered)
+    for hs in hashseeds:
+        results = run_worlds(worlds, hashseed=hs)
+        for wd, res in zip(worlds, results):
+            lit, u = world_literal(wd, res, cfg["epsilon"])
+            lits.append("(AW %s)" % lit)
+            units.append(u)
+            kinds = ["parse"]
+            if "vocab" in res:
+                for pi in range(len(wd["probes"])):
+                    kinds += [("app", pi), ("succ", pi)]
+            for k in kinds:
+                if k == "parse" or k[0] == "succ":
+                    cases.append(None)                      # judged by C01 / C03; not this property's verdict
+                    continue
+                pi = k[1]
+                pr, r = wd["probes"][pi], res["probes"][pi]
+                inp = {"world": {kk: wd[kk] for kk in ("domain_text", "objects", "oof", "oof_kind", "features")},
+                       "hashseed": hs, "implementation": r.get("app", r)}
+                inp["world"]["probes"] = [pr]
+                nontrivial = connectives(wd["domain_text"]) >= 2 and len(pr["state"]["facts"]) > 0
+                cases.append({"lit": "(AW %s)" % lit, "input": inp, "nontrivial": nontrivial,
+                              "witness_of": wd.get("witness_of")})
+                if hs == hashseeds[0]:
+                    stats["world_probes"] += 1
+                    a = r.get("app", {})
+                    stats["world_app_true" if a.get("value") is True else
+                          "world_app_false" if a.get("value") is False else "world_app_raised"] += 1
+            if hs == hashseeds[0]:
+                stats["worlds"] += 1
+                for f in wd["features"]:
+                    stats["features"][f] = stats["features"].get(f, 0) + 1
+    # ---- scope
+    scope_index = []          # (job, row index, n) per scope probe, to build the replay input of a failing one lazily
+    if jobs:
+        results = run_impl([{k: v for k, v in j.items() if k != "meta"} for j in jobs], hashseed=hashseeds[-1])
+        per_formula = {}
+        for job, res in zip(jobs, results):
+            if "answers" not in res:
+                raise RuntimeError("scope job failed on the implementation: %r" % (res,))
+            lit = scase_literal(job, res, cfg["epsilon"])
+            n = sum(len(a) for a in res["answers"])
+            lits.append(lit)
+            units.append(n)
+            for ri, (row, meta, ans) in enumerate(zip(job["rows"], job["meta"], res["answers"])):
+                assert len(ans) == n_states(job, row)
+                stats["scope_rows"] += 1
+                stats["scope_rows_capped"] += 1 if meta["capped"] else 0
+                key = (job["family"], meta["formula"])
+                tf = per_formula.setdefault(key, set())
+                for k, ch in enumerate(ans):
+                    tf.add(ch)
+                    stats["scope_probes"] += 1
+                    stats["scope_true" if ch == "T" else "scope_false" if ch == "F" else "scope_raised"] += 1
+                    cases.append({"lit": lit, "input": {"scope": job["family"], "formula": meta["formula"], "args": row["args"],
+                                                        "state_index": k, "answer": ch},
+                                  "nontrivial": False, "witness_of": None, "_lazy": (job, ri, k)})
+                stats["scope_by_size"][str(meta["size"])] = stats["scope_by_size"].get(str(meta["size"]), 0) + len(ans)
+            stats["scope_formulas"][job["family"]] = stats["scope_formulas"].get(job["family"], 0) + \
+                len({m["formula"] for m in job["meta"]})
+        stats["formulas_total"] = len(per_formula)
+        stats["formulas_with_both_truth_values"] = sum(1 for v in per_formula.values() if "T" in v and "F" in v)
+        both = {k for k, v in per_formula.items() if "T" in v and "F" in v}
+        for c in cases:
+            if c and "_lazy" in c:
+                job, ri, k = c["_lazy"]
+                c["nontrivial"] = connectives(c["input"]["formula"]) >= 2 and (job["family"], c["input"]["formula"]) in both
+
+    verdicts, info = run_case_shards(PROP, "Corr.C02", lits, shard_size=8, run_fn="run_any", units=units,
+                                     header_extra=HEADER, max_bytes=90_000)
+    # keep this property's verdicts only; enrich the failing scope probes with a replayable one-probe world
+    mine, mine_v = [], ""
+    for c, ch in zip(cases, verdicts):
+        if c is None:
+            continue
+        if "_lazy" in c:
+            job, ri, k = c.pop("_lazy")
+            if ch != ".":
+                c["input"]["world"] = single_probe_world(job, job["rows"][ri], job["meta"][ri], k)
+        mine.append(c)
+        mine_v += ch
+    decide(rep, PROP, "Corr.C02", mine, mine_v, info, explain_expr="explain_any %s", header_extra=HEADER, max_replays=5)
+    cov = rep.coverage
+    cov["input_distribution"] = stats
+    cov["hash_seeds"] = hashseeds
+    cov["numeric_config"] = cfg
+    cov["exhaustive"] = bool(exhaustive.get("F2"))
+    cov["exhaustive_detail"] = exhaustive
+    cov["rule"] = (
+        "scope: vocabulary p/1 q/1 r/2 z/0 f/1 h/0 over types u < t; leaves = the 7 atoms over ?x ?y (10 with a constant), their "
+        "negations, (= ?x ?y), its negation, 8 comparisons (>=, <, =, > over +, <= over /, < over -, > over *, < over a division by a fluent that can be zero: no value expected), 5 forall leaves (over t and over the "
+        "subtype u, and/or bodies); formulas = every leaf, every (and L1 L2) and (and (or L1 L2)) of two distinct leaves [family F2, "
+        "thorough: all of them = exhaustive up to size 2; otherwise a seeded sample], plus sampled size-3 shapes (and/or nesting, forall "
+        "with a nested or); calls = every pair over the universe (repeats and the constant included); states = every assignment "
+        "to the ground atoms of the mentioned predicates and to the mentioned fluents over the grid {0,1} (capped at 128 per call, "
+        "32 in quick; capped rows are counted), all other atoms/fluents at a random base value.  Families: F2 (o1-t o2-u), F3const "
+        "(+ constant k-u), F3obj (+ o3-t), F2clash (functions named q and z like the predicates).  worlds: generated typed domains "
+        "(pddlgen) x 3 random states x <=5 type-correct calls per action; corpus: witnesses of the C02 findings.  "
+        "A probe is non-trivial when its formula has >= 2 connectives and (scope) the run contains both a true and a false "
+        "instance of that formula / (worlds) the state has facts; distinct by input hash.")
+    cov["samples"] = [m["formula"] for j in jobs[:2] for m in j["meta"][:2]] + \
+                     [c["input"]["world"]["domain_text"][:300] for c in mine[:1] if "world" in c["input"]]
+    rep.assumptions = ["fluent magnitudes below 1e4 (C12 covers the tolerance boundary and infinities)", "ASCII text",
+                       "states define every fluent the action reads",
+                       "functions of arity <= 1 (for arity >= 3 with repeated objects the library's name-keyed fluent keys collide: D07)"]
+    return rep.finish()
